@@ -860,7 +860,6 @@ func (st *tunnelClientStream) finishStream(err error, trailers metadata.MD) bool
 	}
 	defer st.cancel()
 	st.ch.removeStream(st.streamID)
-	st.receiver.close()
 
 	st.metaMu.Lock()
 	defer st.metaMu.Unlock()
@@ -874,6 +873,10 @@ func (st *tunnelClientStream) finishStream(err error, trailers metadata.MD) bool
 		close(st.gotHeadersSignal)
 	}
 	close(st.doneSignal)
+
+	// Only wake up readers after trailers have been published: a reader that
+	// observes the end of the stream may immediately query the trailers.
+	st.receiver.close()
 
 	return true
 }
